@@ -132,6 +132,17 @@ func runC16(r *Run) {
 					}
 				}
 			}
+			// len(token) == 0 / != 0 / > 0 forms
+			if lc, ok := root.(*ssa.Call); ok && calleeName(&lc.Call) == "builtin:len" && lc.Call.Args[0] == tokenVal {
+				if k, ok := constInt(br.Info.Const); ok && k == 0 {
+					switch br.Info.Op {
+					case token.EQL:
+						tokEdges = append(tokEdges, edge{br.If.Block(), br.slotWhenRel(false)})
+					case token.NEQ, token.GTR:
+						tokEdges = append(tokEdges, edge{br.If.Block(), br.slotWhenRel(true)})
+					}
+				}
+			}
 		}
 		gate("extractor-no-error", errEdges, "an extractor error does not reject the request")
 		gate("token-non-empty", tokEdges, "an empty token passes")
